@@ -590,6 +590,39 @@ class StaleClient(Scenario):
                     self.fail("buffer", "reassembly buffer is not the concatenation of segments 0..%r" % k)
         return L
 
+
+class Reopen(Scenario):
+    """KNOWN FINDING C05-reopen-at-256 (transfers of more than 256 segments): sequence numbers are modulo
+    256 and nothing marks a first segment, so once the RECEIVER has given up (its 4 x T_seg timer) segment
+    256k (sequence number 0) of the same transfer opens a new transaction and the tail is handed to the
+    application.  FIFO delivery, no reordering.  params: count, stop (last segment accepted before the
+    receiver's timer fires)"""
+
+    def run(self):
+        p = self.params
+        cfg = T.default_cfg()
+        cfg.update(seg=3, window=8, maxApdu=1476, maxSegs=None)
+        L = T.Lock(cfg, [])
+        self.L = L
+        L.label = "reopen-%d-%d" % (p["count"], p["stop"])
+        P = pattern(44 * p["count"] - 3, 5)
+        sl = cut(P, 44)
+
+        def fr(i):
+            return {"t": 0, "id": 9, "svc": 200, "maxResp": 5, "maxSegs": 0, "sa": 1, "seg": 1,
+                    "mor": 1 if i < len(sl) - 1 else 0, "seq": i % 256, "win": 8, "hex": sl[i].hex()}
+        for i in range(0, p["stop"] + 1):
+            L.frame(0, fr(i))
+        L.fire_next()                                  # the receiver gives up (4 x T_seg of silence)
+        for i in range(p["stop"] + 1, len(sl)):        # the rest of the sender's transmissions, in order
+            r = L.frame(0, fr(i))
+            for o in r["out"]:
+                if o["o"] == "ind" and o["h"][0] == 0 and (o["n"], o["d"]) != (len(P), T.fnv64(P)):
+                    self.fail("request-payload", "the application was handed %d octets (the tail from segment "
+                              "256 on), %d were submitted: the receiver gave up at segment %d and was re-opened "
+                              "by segment 256 (sequence number 0)" % (o["n"], len(P), p["stop"]))
+        return L
+
 # ---------------------------------------------------------------- generators
 
 def boundary_lengths(size):
@@ -675,8 +708,23 @@ def stale_client_specs(ctx):
     return [{"role": "c", "tail": t, "count_hint": 3} for t in pats]
 
 
+def reopen_specs():
+    return [{"role": "s", "count": c, "stop": st, "count_hint": c} for c, st in ((300, 254), (258, 250), (600, 511))]
+
+
+def reopen_listed():
+    """the `reopen` stream demonstrates a KNOWN finding (inherent to modulo-256 sequence numbers, no repair
+    inside the protocol); it runs only once known_findings.json lists it, so that the check reports it as
+    KNOWN-FINDING and not as a new violation"""
+    try:
+        k = json.load(open(os.path.join(core.VERIF, "known_findings.json")))
+        return any(f.get("id") == "C05-reopen-at-256" for f in k.get("findings", []))
+    except Exception:
+        return False
+
+
 def run_one(ctx, kind, params, ch):
-    cls = SendRun if kind == "send" else (StaleClient if kind == "stalec" else RecvRun)
+    cls = {"send": SendRun, "stalec": StaleClient, "reopen": Reopen}.get(kind, RecvRun)
     sc = cls(ctx, kind if kind != "stale" else "stale", params, ch)
     L = sc.run()
     ctx.count(kind + "-scenario", (kind, params["role"], min(params.get("count_hint", 0), 6),
@@ -766,6 +814,8 @@ def run_case(ctx, case, label):
 
 def run(ctx):
     for name, c in corpus_cases():
+        if c.get("kind") == "reopen" and not reopen_listed():
+            continue
         run_case(ctx, c, "corpus/" + name)
     rng = ctx.sub_rng("c05/grid")
     ss = send_specs(ctx, rng)
@@ -786,6 +836,8 @@ def run(ctx):
     specs.append(("stale", [("c%d" % i, "stalec", p) for i, p in enumerate(stale_client_specs(ctx))]))
     for i, (k2, p) in enumerate(long_specs(ctx, rng)):
         specs.append(("long", [("%d" % i, k2, p)]))
+    if reopen_listed():
+        specs.append(("reopen", [("%d" % i, "reopen", p) for i, p in enumerate(reopen_specs())]))
     core.run_shards(ctx, "harness.c05", "shard", specs)
     cases = stale_e2e_cases(ctx, ctx.sub_rng("c05/e2e-stale"))
     core.run_shards(ctx, "harness.c05", "stale_e2e_shard", [c for c in (cases[i::16] for i in range(16)) if c])
